@@ -80,6 +80,8 @@ def match(p, n, env: Env) -> bool:
                 continue
             if fld in ("orelse", "finalbody", "handlers", "decorator_list") and a == []:
                 continue  # the pattern does not mention it: anything goes
+            if fld == "keywords" and a == [] and isinstance(p, ast.Call) and p.args and _is_ellipsis_expr(p.args[-1]):
+                continue  # f(..., ...) leaves the keyword arguments open as well
             if not match(a, b, env):
                 return False
         return True
